@@ -1,6 +1,7 @@
 //! verif harness: drives the real ruma API with cases emitted by TLC (spec -> impl replay) and
 //! records executions of the real API for validation by TLC (impl -> spec).
 mod c04;
+mod c13;
 mod util;
 
 fn main() {
@@ -14,6 +15,8 @@ fn main() {
     match (args[0].as_str(), args[1].to_ascii_lowercase().as_str()) {
         ("replay", "c04") => c04::replay(rest),
         ("record", "c04") => c04::record(rest),
+        ("replay", "c13") => c13::replay(rest),
+        ("record", "c13") => c13::record(rest),
         (m, id) => {
             eprintln!("unknown mode/id {m} {id}");
             std::process::exit(2);
